@@ -165,8 +165,8 @@ class Elastic(_Simu):
 
     def Save_Iter(self, iter=None):
 
-        if iter is None:
-            iter = {}
+        # never write into the dict of the caller (it may be reused from step to step)
+        iter = {} if iter is None else iter.copy()
 
         iter["displacement"] = self.displacement
         if self.algo in AlgoType.Get_Hyperbolic_Types():
